@@ -1318,3 +1318,24 @@ Lemma eval_cands_step opid op_eval e (l : link opid) lvl o neg vn key carg r s a
         (mk_md e l (negb (l_parent l =? 0)%Z || negb (l_haschain l)) vn key carg s2 :: acc)
     else eval_cands op_eval e l lvl o neg r s1 acc.
 Proof. reflexivity. Qed.
+
+(* ------------------------------------------------------------------------------------ *)
+(* pooled transaction objects: the n-th transaction starts like the first               *)
+(* ------------------------------------------------------------------------------------ *)
+Lemma st_new_close_init s : st_new (st_close s) = st_init.
+Proof. reflexivity. Qed.
+
+Lemma run_priors_init opid op_eval (rs : list (rule opid)) priors :
+  run_priors op_eval rs priors st_init = st_init.
+Proof.
+  induction priors as [|e r IH]; [reflexivity|]. cbn [run_priors]. rewrite st_new_close_init. exact IH.
+Qed.
+
+Lemma nth_tx_is_first opid op_eval (rs : list (rule opid)) priors e :
+  eval_nth_tx op_eval rs priors e = eval_tx op_eval e rs st_init.
+Proof. unfold eval_nth_tx. rewrite run_priors_init. reflexivity. Qed.
+
+Lemma highest_severity_min_nth opid op_eval (rs : list (rule opid)) priors e :
+  rules_sev_ok opid rs = true ->
+  s_hs (eval_nth_tx op_eval rs priors e) = z_itoa (fold_min 255 (s_matched (eval_nth_tx op_eval rs priors e))).
+Proof. intro H. rewrite nth_tx_is_first. apply highest_severity_min_init. exact H. Qed.
